@@ -690,7 +690,10 @@ def item_in_child_context(chk, prefix="C08"):
     def child_handler(eng_, s, args, kwargs):
         s.emit("child_handler", func=args[0], state=args[1], ident=kwargs.get("operation_identifier", args[2] if len(args) > 2 else None), config=kwargs.get("config"))
         out = []
-        for k, v, s2 in eng_.call_value(args[0], [], {}, s):  # the handler runs the body (when the record does not short-circuit)
+        s_short = s.fork()
+        s_short.emit("child_short_circuit")
+        out.append(("val", fresh("any", "recorded_branch_result"), s_short))  # contract of child_handler (C01): a SUCCEEDED record is returned WITHOUT running the body
+        for k, v, s2 in eng_.call_value(args[0], [], {}, s):  # ... otherwise the handler runs the body
             out.append((k, v, s2))
         return out
 
@@ -707,9 +710,13 @@ def item_in_child_context(chk, prefix="C08"):
         ei = [e for e in s.trace if e.kind == "execute_item"]
         ids = [e for e in s.trace if e.kind == "id_for"]
         tr = [e for e in s.trace if e.kind == "track"]
-        ok = k == "val" and len(ch) == 1 and len(cc) == 1 and len(ei) == 1 and len(ids) == 1 and len(tr) == 1 and isinstance(ch[0].ident, Ref)
+        short = any(e.kind == "child_short_circuit" for e in s.trace)
+        tracked_after = len(tr) == 1 and len(ch) == 1 and s.trace.index(tr[0]) > s.trace.index(ch[0]) and (not ei or s.trace.index(tr[0]) > s.trace.index(ei[0]))
+        ok = k == "val" and len(ch) == 1 and len(cc) == 1 and len(ei) == (0 if short else 1) and len(ids) == 1 and tracked_after and isinstance(ch[0].ident, Ref)
         goal = z3.BoolVal(ok)
         if ok:
+            if short:
+                ei = [type("E", (), {"ctx": cc[0].ctx, "exe": exe})()]
             ident = s.get(ch[0].ident)
             the_id = Sym("str", idf(index.t))
             name = ident["name"]
@@ -720,7 +727,7 @@ def item_in_child_context(chk, prefix="C08"):
             cfg = s.get(ch[0].config)
             goal = z3.And(goal, ops.values_equal(s, cfg["sub_type"], s.get(self_)["sub_type_iteration"]))
         chk.prove(f"{prefix}.branch.index_ids", s.pc, goal,
-                  desc="branch i: id = id-for-logical-step(i) of the executor context (no counter involved), parent link = that context's parent id, a FRESH child context with parent id = the branch id runs the item, name = prefix + i, sub type = the iteration sub type; the replay tracker is told the branch id",
+                  desc="branch i: id = id-for-logical-step(i) of the executor context (no counter involved), parent link = that context's parent id, a FRESH child context with parent id = the branch id runs the item, name = prefix + i, sub type = the iteration sub type; the replay tracker is told the branch id AFTER the branch's handler returned - also when the handler returned a recorded result without running the branch body",
                   sample="_execute_item_in_child_context for an arbitrary branch index")
     return eng
 
